@@ -50,6 +50,15 @@ static smt::rational parse_q(const std::string &s)
   return smt::rational(std::stol(s.substr(0, p)), std::stol(s.substr(p + 1)));
 }
 
+// times without blanks: `q` or `q~e` for q + e*epsilon
+static std::string show_t(const smt::inf_rational &v)
+{
+  std::string r = to_string(v.get_rational());
+  if (v.get_infinitesimal() != smt::rational::ZERO)
+    r += "~" + to_string(v.get_infinitesimal());
+  return r;
+}
+
 struct step
 {
   std::string kind;
@@ -120,13 +129,13 @@ public:
         if (slv.is_impulse(*a))
         {
           arith_expr at = a->get(RATIO_AT);
-          ps.push_back(label(a) + "=[" + to_string(slv.arith_value(at)) + "]");
+          ps.push_back(label(a) + "=[" + show_t(slv.arith_value(at)) + "]");
         }
         else if (slv.is_interval(*a))
         {
           arith_expr s = a->get(RATIO_START);
           arith_expr e = a->get(RATIO_END);
-          ps.push_back(label(a) + "=[" + to_string(slv.arith_value(s)) + "," + to_string(slv.arith_value(e)) + "]");
+          ps.push_back(label(a) + "=[" + show_t(slv.arith_value(s)) + "," + show_t(slv.arith_value(e)) + "]");
         }
       }
     std::sort(ps.begin(), ps.end());
@@ -168,7 +177,7 @@ private:
     for (const auto &a : atms)
     {
       arith_expr x = slv.is_impulse(*a) ? a->get(RATIO_AT) : (at_end ? a->get(RATIO_END) : a->get(RATIO_START));
-      ls.push_back(label(a) + "@" + to_string(slv.arith_value(x)));
+      ls.push_back(label(a) + "@" + show_t(slv.arith_value(x)));
     }
     std::sort(ls.begin(), ls.end());
     std::string r;
